@@ -9,7 +9,11 @@ import PercevalModel.Model.C13
     reports (`{"n":…, "doubled":…, "U":…}`), or `{"err":"AssertionError"}`.
   * `{"op":"probs","tree":T,"modes":[[[c,s,p,q],…],…],"fixed":true|false}` → conversion of the
     polarised input (`input`, `prep`), acceptance test of `Unitary(upol @ prep)`, exact Fock-space
-    distribution on the doubled modes, sub-modes merged (`states`, `probs`), or `{"err":…}`.
+    distribution on the doubled modes, sub-modes merged (`states`, `probs`), or `{"err":…}`
+    (the stateless `answer` of the model).
+  * `{"op":"session","fixed":b,"steps":[{"set":T} | {"q":modes}, …]}` → `{"outs":[…]}`: the replies
+    of ONE long-lived simulator object (`sessionStep` run from the fresh object over the whole
+    history): `null` for an accepted `set_circuit`, the `probs` reply for a query, `{"err":…}`.
 
   Trees: `{"plain":k,"U":rows}`, `{"pol":k,"U":rows}`, `{"wp":[c,s,c2,s2]}`, `{"pr":[c,s]}`,
   `{"pbs":true}`, `{"circ":m,"items":[{"off":o,"c":T},…]}`.
@@ -79,6 +83,51 @@ def rhoOf (vs : List (GQ × GQ)) : GQ :=
   | v1 :: v2 :: _ => GQ.ofRat (invSqrtNear1 (gsNorm2 v1 v2).re)
   | _ => 1
 
+abbrev SqV := (n : ℕ) × MatV GQ n n
+
+def SqV.rows (a : SqV) : Array (Array GQ) := a.2.toArray.map (·.toArray)
+
+/-- the ingredients of the model as one `Env`: circuits are trees, inputs are the photons' Jones
+vectors per mode, a prepared input is the spatial input together with the preparation matrix -/
+def envGQ (fixed : Bool) : Env (PComp GQ) (List (List (GQ × GQ))) SqV (List ℕ × SqV) Json where
+  compile c :=
+    if !c.wfb then .error "AssertionError"
+    else .ok ⟨(dbl c).size, C01.unitaryV (dbl c)⟩
+  prepare modes := do
+    let scans ← modes.mapM fun phs => scanMode orthGQ phs ⟨[], 0, 0⟩
+    let m := modes.length
+    let arr := scans.toArray
+    let blocks : Fin m → Matrix (Fin 2) (Fin 2) GQ := fun k =>
+      let vs := (arr.getD k.val ⟨[], 0, 0⟩).vectors
+      modeBlock fixed (rhoOf vs) vs
+    let prepV : MatV GQ (m * 2) (m * 2) := MatV.ofMatrix (prepMatrix blocks)
+    let prep : SqV := ⟨m * 2, prepV⟩
+    return ((spatialInput scans, prep), prep)
+  mkUnitary u p :=
+    if u.1 ≠ p.1 then .error "ValueError"     -- `upol @ prep` with mismatching shapes
+    else
+      let pm : Matrix (Fin u.1) (Fin u.1) GQ := matOfRows u.1 p.rows
+      let w : MatV GQ u.1 u.1 := MatV.ofMatrix (simMatrix u.2.toMatrix pm)
+      if !acceptsUnitary w.toMatrix then .error "AssertionError" else .ok ⟨u.1, w⟩
+  simulate w sp :=
+    let s := sp.1
+    let d := polDist w.2.toMatrix s
+    let sts := Fock.allStates (w.1 / 2) s.sum
+    let ps := sts.map fun t => ratToJson (Dist.get d t)
+    Json.mkObj [("input", toJson s), ("prep", rowsToJson sp.2.rows),
+      ("states", Json.arr (sts.map (fun t => toJson t)).toArray), ("probs", Json.arr ps.toArray)]
+
+def modesOf (modesJ : Array Json) : Except String (List (List (GQ × GQ))) :=
+  modesJ.toList.mapM fun mj => do
+    (← mj.getArr?).toList.mapM fun pj => do
+      let p ← gqList pj 4
+      pure (jones GQ.I (p.getD 0 0) (p.getD 1 0) (p.getD 2 0) (p.getD 3 0))
+
+def replyJson : Except String (Option Json) → Json
+  | .error e => errJson e
+  | .ok none => Json.null
+  | .ok (some j) => j
+
 def handle (j : Json) : Json :=
   match (do
     let op ← strOf j "op"
@@ -100,36 +149,20 @@ def handle (j : Json) : Json :=
         return Json.mkObj [("n", toJson (spatial c).size), ("doubled", toJson false), ("U", matVJson u)]
     | "probs" =>
       let c ← evalTree (← j.getObjVal? "tree")
-      if !c.wfb then throw "AssertionError"
       let fixed ← boolOf j "fixed"
-      let m := c.size
-      let modesJ ← arrOf j "modes"
-      if modesJ.size ≠ m then throw "AssertionError"
-      -- per-mode scan of the photons' Jones vectors
-      let mut scans : Array (Scan GQ) := #[]
-      for mj in modesJ do
-        let phs ← (← mj.getArr?).toList.mapM fun pj => do
-          let p ← gqList pj 4
-          pure (jones GQ.I (p.getD 0 0) (p.getD 1 0) (p.getD 2 0) (p.getD 3 0))
-        let sc ← scanMode orthGQ phs ⟨[], 0, 0⟩
-        scans := scans.push sc
-      let blocks : Fin m → Matrix (Fin 2) (Fin 2) GQ := fun k =>
-        let vs := (scans.getD k.val ⟨[], 0, 0⟩).vectors
-        modeBlock fixed (rhoOf vs) vs
-      let prepV : MatV GQ (m * 2) (m * 2) := MatV.ofMatrix (prepMatrix blocks)
-      let s := spatialInput scans.toList
-      -- the doubled circuit matrix; (dbl c).size = m * 2
-      let upolV := C01.unitaryV (dbl c)
-      if h : (dbl c).size = m * 2 then
-        let upol : Matrix (Fin (m * 2)) (Fin (m * 2)) GQ := h ▸ upolV.toMatrix
-        let simV : MatV GQ (m * 2) (m * 2) := MatV.ofMatrix (simMatrix upol prepV.toMatrix)
-        if !acceptsUnitary simV.toMatrix then throw "AssertionError"
-        let d := polDist simV.toMatrix s
-        let sts := Fock.allStates m s.sum
-        let ps := sts.map fun t => ratToJson (Dist.get d t)
-        return Json.mkObj [("input", toJson s), ("prep", matVJson prepV),
-          ("states", Json.arr (sts.map (fun t => toJson t)).toArray), ("probs", Json.arr ps.toArray)]
-      else throw "internal: size"
+      let modes ← modesOf (← arrOf j "modes")
+      match ← answer (envGQ fixed) (some c) modes with
+      | some r => return r
+      | none => throw "internal: no reply"
+    | "session" =>
+      let fixed ← boolOf j "fixed"
+      let steps ← arrOf j "steps"
+      let cmds ← steps.toList.mapM fun (sj : Json) => do
+        match sj.getObjVal? "set" with
+        | Except.ok t => return Cmd.setCircuit (← evalTree t)
+        | Except.error _ => return Cmd.probs (← modesOf (← arrOf sj "q"))
+      let outs := (SM.run (sessionStep (envGQ fixed)) ⟨none, none⟩ cmds).2
+      return Json.mkObj [("outs", Json.arr (outs.map replyJson).toArray)]
     | _ => throw "unknown op") with
   | .ok r => r
   | .error e => errJson e
